@@ -67,3 +67,21 @@ Check C16_filter_order_irrelevant : forall (o1 o2 : opts) (line : list N), (fora
 Print Assumptions C16_filter_order_irrelevant.
 
 
+
+(** ---- counter width: the model's unbounded counters against the declared integer type of df_count (regenerated) ---- *)
+From SQ Require Import Base Tables Table TableProofs CounterWidth.
+
+
+(** for every stream of at most df_counter_max lines every counter of the model lies within the range of the code's counter type: the model's exact count is what the code computes (no overflow, no wrap) *)
+Theorem C16_counters_fit : forall (o : opts) (now : Z) (ls : list (option (list N))) (s s' : state), run_lines o now s ls = Ok s' -> df_count (cnt s) = [] -> (Z.of_nat (Datatypes.length ls) <= df_counter_max)%Z -> forall d : N, (0 <= cnt_get (df_count (cnt s')) d <= df_counter_max)%Z.
+Proof. exact counters_fit. Qed.
+Check C16_counters_fit : forall (o : opts) (now : Z) (ls : list (option (list N))) (s s' : state), run_lines o now s ls = Ok s' -> df_count (cnt s) = [] -> (Z.of_nat (Datatypes.length ls) <= df_counter_max)%Z -> forall d : N, (0 <= cnt_get (df_count (cnt s')) d <= df_counter_max)%Z.
+Print Assumptions C16_counters_fit.
+
+(** the declared counter type (df_counter_max is regenerated from src/counters.rs) holds at least 2^63-1: no reader run can deliver that many frames (defect D14: with the original i32 this is false and the count wraps after 2^31 frames) *)
+Theorem C16_counter_capacity : (2 ^ 63 - 1 <= df_counter_max)%Z.
+Proof. exact counter_capacity. Qed.
+Check C16_counter_capacity : (2 ^ 63 - 1 <= df_counter_max)%Z.
+Print Assumptions C16_counter_capacity.
+
+
